@@ -125,23 +125,22 @@ class PolicyEngine(Engine):
         notion: keys the policy was told are resident (admitted, not since nominated as a victim,
         removed or cleared) with the cost it was last told.
 
-        Known defects get narrow clause ids (is_known matches engine + clause); each requires the
-        defect's own precondition to have occurred in the history, everything else stays reportable:
-          readmit-cost                 evict reports the cost of the *first* admission (F-19)
-          arc-unevictable-resident     evict falls short after an admission under capacity pressure
-                                       (on_admit's `replace` moved a resident to a ghost list) (F-20)
-          arc-evict-stall              evict falls short after a previously evicted key was re-admitted
-                                       (ghost hit raised p above T1's cost) (F-20)
-          tinylfu-window-unevictable   evict falls short by no more than the window's worth (F-21)"""
+        Defects that are or were known get narrow clause ids (is_known matches engine + clause against
+        the `known:` lines of known_findings.txt; `fixed:` lines suppress nothing):
+          readmit-cost                 evict reports the cost of the *first* admission (F-19; known for Fifo only)
+          arc-unevictable-resident     evict falls short and every key left could have been moved to a ghost
+                                       list by an admission under capacity pressure, at most one per such
+                                       admission (F-20-arc-admit, known)
+          arc-evict-stall              any other shortfall of Arc (was F-20-arc-evict, fixed)
+          tinylfu-window-unevictable   evict falls short by no more than the window's worth (was F-21, fixed)"""
         hdr, ops = self.split(line)
         cap = int(hdr[0].split(":")[1]) if ":" in hdr[0] else 0
         outs = [o.strip() for o in out.split(";")] if out.strip() else []
         hits = []
         tracked = {}       # full clause: re-admission updates the cost
         tracked_old = {}   # what F-19 does: re-admission keeps the old cost
-        arc_pressure = False     # a fresh key was admitted while the tracked keys were worth >= capacity
-        arc_ghost_hit = False    # a key nominated by an earlier evict was admitted again
-        evicted = set()
+        maybe_demoted = set()    # Arc: keys that were tracked when some other key was admitted at tracked cost >= capacity
+        pressured_admits = 0     # ... and how many such admissions there were (each demotes at most one resident)
         slack = 0                # TinyLfu: cost added to (possibly window) keys by on_access since the last clear
                                  # (an on_admit of a key already in main does not trim the window)
         wt = tinylfu_window_target(cap)
@@ -162,10 +161,10 @@ class PolicyEngine(Engine):
                     tracked_old[k] = c
             elif op[0] == "m":
                 k, c = int(op[1]), int(op[2])
-                if k not in tracked and sum(tracked.values()) >= cap:
-                    arc_pressure = True
-                if k in evicted:
-                    arc_ghost_hit = True
+                if sum(tracked.values()) >= cap and any(kk != k for kk in tracked):
+                    maybe_demoted |= set(tracked)
+                    pressured_admits += 1
+                maybe_demoted.discard(k)
                 if o == "admit":
                     tracked[k] = c
                     tracked_old.setdefault(k, c)
@@ -189,11 +188,12 @@ class PolicyEngine(Engine):
             elif op[0] == "r":
                 tracked.pop(int(op[1]), None)
                 tracked_old.pop(int(op[1]), None)
+                maybe_demoted.discard(int(op[1]))
             elif op[0] == "c":
                 tracked.clear()
                 tracked_old.clear()
-                evicted.clear()
-                arc_pressure = arc_ghost_hit = False
+                maybe_demoted.clear()
+                pressured_admits = 0
                 slack = 0
             elif op[0] == "e":
                 m = re.match(r"v \[([0-9,]*)\] (\d+)$", o)
@@ -221,9 +221,10 @@ class PolicyEngine(Engine):
                 if tot >= n and c < n:
                     left = sum(cc for kk, cc in tracked.items() if kk not in vs)
                     clause = "insufficient"
-                    if self.pol == "arc" and arc_pressure:
+                    left_keys = set(kk for kk in tracked if kk not in vs)
+                    if self.pol == "arc" and left_keys <= maybe_demoted and len(left_keys) <= pressured_admits:
                         clause = "arc-unevictable-resident"
-                    elif self.pol == "arc" and arc_ghost_hit:
+                    elif self.pol == "arc":
                         clause = "arc-evict-stall"
                     elif self.pol == "tinylfu" and left <= wt + slack:
                         clause = "tinylfu-window-unevictable"
@@ -232,5 +233,5 @@ class PolicyEngine(Engine):
                 for v in vs:
                     tracked.pop(v, None)
                     tracked_old.pop(v, None)
-                    evicted.add(v)
+                    maybe_demoted.discard(v)
         return hits
